@@ -259,11 +259,47 @@ func common(a, b *Disj) int {
 	return n
 }
 
+// intersect keeps what both disjuncts entail: common literals, literals of one
+// entailed by the other, and the one-sided weakenings of integer literals
+// (x == y gives x <= y and x >= y; x < y gives x <= y) entailed by both.
 func intersect(a, b *Disj) *Disj {
 	x := newDisj()
-	for k, l := range a.L {
-		if m, ok := b.L[k]; ok && m.Neg == l.Neg {
-			x.L[k] = l
+	try := func(l Lit, other *Disj) {
+		if _, done := x.L[l.A.key]; done {
+			return
+		}
+		if other.entailsLit(l) {
+			x.L[l.A.key] = l
+		}
+	}
+	weak := func(l Lit) []Lit {
+		if l.A.Op == "b" || !(isIntegerType(l.A.L.Typ) || isIntegerType(l.A.R.Typ)) {
+			return nil
+		}
+		switch {
+		case l.A.Op == "eq" && !l.Neg:
+			return []Lit{{A: Lt(l.A.L, l.A.R), Neg: true}, {A: Lt(l.A.R, l.A.L), Neg: true}}
+		case l.A.Op == "lt" && !l.Neg:
+			return []Lit{{A: Lt(l.A.R, l.A.L), Neg: true}}
+		}
+		return nil
+	}
+	for _, l := range a.L {
+		try(l, b)
+		if _, kept := x.L[l.A.key]; kept {
+			continue
+		}
+		for _, w := range weak(l) {
+			try(w, b)
+		}
+	}
+	for _, l := range b.L {
+		try(l, a)
+		if _, kept := x.L[l.A.key]; kept {
+			continue
+		}
+		for _, w := range weak(l) {
+			try(w, a)
 		}
 	}
 	return x
